@@ -59,10 +59,16 @@ def run(pid, seed):
         import selftest
         st = selftest.run(pid)
         extra["selftest"] = st
-        if st.get("failed"):
-            for m in st["failed"]:
+        # fixtures do not depend on /repo: a wrong verdict on them means the analyses are broken.
+        # Seeded replays depend on the tree under analysis (a patch may no longer apply to, or
+        # mean the same on, a tree that has moved on): their outcome is recorded and printed,
+        # it never changes the verdict on the property.
+        if st.get("fixtures", {}).get("failures"):
+            for m in st["fixtures"]["failures"]:
                 print("CHECK-BROKEN property=%s self-test failed: %s" % (pid, m))
             return 2
+        for m in st.get("seeded_notes", []):
+            print("SELFTEST-NOTE property=%s %s" % (pid, m))
     except ImportError:
         extra["selftest"] = {"note": "no self-test module"}
     # merge into evidence
